@@ -109,6 +109,25 @@ CHECKS.update({
                 design="§4 C11", real=REAL_E4, rule="one case = one history; every operation costs 3 resolutions", assumptions=["branch queries (@main) resolve to pseudo-versions of the head revision; tag refs with slashes are not generated"]),
 })
 
+# what later rounds of seeded changes added to each generator / oracle (DESIGN.md 13)
+MORE = {
+    "C01": "Also: files moved across sub-directory boundaries of source directories, symbolic links inside source directories to files outside them, always= toggled, recursive helpers, and a dry run followed by Run with nil options on one loaded project.",
+    "C02": "Also: a build over an unreadable source (which fails and must execute nothing) between the no-op rebuilds, and recursive helpers whose definitions move when comments are inserted.",
+    "C03": "Also: a mode in which an always=True target is interrupted and always= is then removed before the recovery build.",
+    "C04": "Also: a cyclic-dependency error handed for a request none of whose targets depends on the requester is a wrong outcome; project level: Run again on the kept project, and 'the build returned an error although no body failed in it'.",
+    "C06": "Also: watch-mode sequences on one loaded project - an edit breaks the load graph (failing module, self-load, two-module cycle), Reload must fail and name a cycle, the edit is undone, Reload must succeed and list the project's targets.",
+    "C08": "Also: helpers with keyword-only parameters without default, functions / structs / tuples holding functions as dict keys and set elements, the built tree renamed to another directory and rebuilt (nothing may execute), and a default list the body appends to with two further runs on the kept project (the second must re-execute it).",
+    "C10": "Also: the root naming one path twice, one resolver resolving another root first, requirements at pseudo-versions, projects two directories below the repository root.",
+    "C11": "Also: projects whose tags are all prereleases, several projects sharing a configured name.",
+    "C13": "Also: real builds between dry runs that are interrupted (crash_at); the twin history performs a load wherever the first performs a dry run.",
+    "C14": "Also: builds that reload the previous project (watch mode), helper modules that fail to load until repaired (with an index-based collection in between), collections on the reloaded or kept project of the previous operation.",
+    "C15": "Also: one decoder handed a truncated stream, a short tail leaning on leftover state and the intact stream in turn.",
+    "C18": "Also: a dry run followed by Run with nil options on one loaded project (both runs' events checked), and builds of labels that name no target.",
+    "C20": "Also: a second cache whose callables may call once on the first, and clients that freeze a cache (repeatedly) between and during calls. Channel operations in changed code run under the simulator (simchan).",
+}
+for _p, _m in MORE.items():
+    CHECKS[_p]["text"] += " " + _m
+
 NOT_APPLICABLE = {
     "C07": "pure function of its input (Decode(Encode(v)) ~ v): no schedule, clock, fault or history in the statement or the code path - not a simulation target (DESIGN.md §5); stream faults on the same codec are decided under C15, values flowing through it in builds under C01/C08",
     "C12": "label parsing/printing and path confinement are pure string functions: nothing for a simulator to schedule or fault (DESIGN.md §5)",
@@ -151,7 +170,7 @@ def main():
         "setup_cmd": "./setup.sh",
         "hooks": {
             "guard": "go build -overlay (generated per run by tools/simgen); no source in /repo is changed and no build tag exists: with the overlay absent the shipped code is compiled byte for byte",
-            "enable": "./check build  (simgen rewrites sync/atomic/os/runtime/rand/time selectors, go statements and map ranges of dawn's packages and pgavlin/mvs into /verif/.work/<treehash>/ and builds the engines with go test -c -overlay ... -modfile ...)",
+            "enable": "./check build  (simgen rewrites sync/atomic/os/runtime/rand/time selectors, go statements, channel operations and map ranges of dawn's packages and pgavlin/mvs into /verif/.work/<treehash>/ and builds the engines with go test -c -overlay ... -modfile ...)",
             "baseline_off_cmd": "cd /repo && go test -vet=off -count=1 ./...",
             "source_commits": [],
             "add_only": True,
